@@ -139,3 +139,32 @@ class FetchNextInner:
                                          " == (result is None or not valid(result)))",
         no_fallback_plain_receive="implies(self._fallback is None, same_sample(result, primary_of(self)))",
     )
+
+
+# ------------------------------------------------------------------ the fallback's subscription
+FBF = "frequenz.sdk.timeseries.formula_engine._formula_generators._fallback_formula_metric_fetcher"
+
+DEFAULT_BUFFER = 50                 # FormulaEngine.new_receiver's default max_size
+
+FallbackEngineT = ExtObj("frequenz.sdk.timeseries.formula_engine._formula_engine:FormulaEngine", methods=dict(
+    new_receiver=dict(returns="rx", effects={"n_receivers": "self.n_receivers + 1",
+                                             "buffer": "kwargs['max_size'] if 'max_size' in kwargs else"
+                                                       " (args[1] if len(args) > 1 else DEFAULT_BUFFER)"})),
+    n_receivers=Int, buffer=Int)
+GeneratorT = ExtObj("FormulaGenerator", methods=dict(generate=dict(returns="engine")))
+
+
+@contract(f"{FBF}:FallbackFormulaMetricFetcher.start")
+class FallbackStart:
+    """The fallback formula is generated once and subscribed to once, with (at least) the engine's default
+    buffering: the stream model used for _synchronize_and_fetch_fallback - fallback results are delivered in order
+    and none is lost while the primary lags by less than the buffer - rests on it."""
+    self_shape = Obj(f"{FBF}:FallbackFormulaMetricFetcher", _name=OpaqueT("name"), _formula_generator=GeneratorT,
+                     _formula_engine=Opt(OpaqueT("engine")), _receiver=Opt(OpaqueT("receiver")))
+    ghost = dict(engine=FallbackEngineT, rx=ExtObj("frequenz.channels.Receiver"))
+    modifies = ["self._formula_engine", "self._receiver", "self._formula_generator", "engine"]
+    requires = dict(fresh="engine.n_receivers == 0")
+    ensures = dict(
+        subscribed_once="engine.n_receivers == 1 and self._receiver is rx and self._formula_engine is engine",
+        buffer_not_reduced="engine.buffer >= DEFAULT_BUFFER",
+    )
